@@ -133,7 +133,7 @@ def parse_output(res, job, out):
 
 def run_shard(res, exe, job, tier, shard, nshards, deadline, seed, extra=()):
     cmd = [exe, "--shard", "%d/%d" % (shard, nshards), "--tier", tier, "--deadline", "%.0f" % deadline,
-           "--seed", str(seed)] + list(job.get("args", [])) + list(extra)
+           "--seed", str(seed)] + list(job.get("args_" + tier, job.get("args", []))) + list(extra)
     try:
         p = subprocess.run(cmd, capture_output=True, text=True, env=dict(ENV, **job.get("env", {})), errors="replace",
                            timeout=deadline * 1.5 + 300)
